@@ -432,8 +432,13 @@ func (a *arrayObject) _defineIdxProperty(idx uint32, desc PropertyDescriptor, th
 			}
 		}
 		if a.expand(idx) {
+			old := a.values[idx]
 			a.values[idx] = prop
-			a.objCount++
+			if old == nil {
+				a.objCount++
+			} else if _, ok := old.(*valueProperty); ok {
+				a.propValueCount--
+			}
 			if _, ok := prop.(*valueProperty); ok {
 				a.propValueCount++
 			}
